@@ -17,6 +17,10 @@ def run(tier):
     n, d = (25, 25) if c.quick() else (250, 40)
     sims.append(kv.simulate(c, "kv-sim", kv.consts(keys="Keys3", invals=("nil", "empty", "x", "y"), exps=("none", "long"), many=3), n, d))
     kv.replay_both(c, emits + sims)
+    # the same contract with time, on the Redis backend only (virtual clock, so it is cheap): what a write
+    # stored - including the TTL the server keeps for it - is observed after time has passed
+    et = kv.emit(c, "kv-time-redis", kv.consts(pats="Pats2", invals=("x",), exps=("none", "s1", "s3"), maxnow=4), workers=6)
+    c.replay("kv", et, variant="redis", timeout=2400)
     if not c.quick():
         selftest(c, emits[0])
     c.assumptions += ["keys without a leading '/' (the Redis client strips leading slashes; not part of the stated contract)",
